@@ -25,7 +25,7 @@ vs `0.5f` in the C++ do not change the output)
 
 C++ semantics assumed by the translation (trusted, see engines/scalar.py):
   float/double arithmetic -> exact real arithmetic; a comparison used as a number -> 1 or 0;
-  std::exp/log/tanh/sin/cos/tan/sqrt/abs -> exp/ln/tanh/sin/cos/tan/sqrt/Rabs;
+  std::exp/log/tanh/sin/cos/tan/sqrt/abs -> exp/ln/tanh/sin/cos/tan/sqrt/Rabs; std::max/min -> Rmax/Rmin;
   std::pow(a,b) -> Rpower a b = exp (b * ln a)  (meaningful for a > 0 only: the theorems
   carry that hypothesis); int32 k used in float arithmetic -> IZR k.
 """
@@ -285,6 +285,7 @@ FUN1 = {"std::exp": ("exp", "Fexp", "m_exp"), "std::log": ("ln", "Fln", "m_log")
         "std::cos": ("cos", "Fcos", "m_cos"), "std::tan": ("tan", "Ftan", "m_tan"),
         "std::sqrt": ("sqrt", "Fsqrt", "m_sqrt"), "std::abs": ("Rabs", "Fabs", "abs"),
         "std::fabs": ("Rabs", "Fabs", "abs")}
+FUN2 = {"std::max": ("Rmax", "max"), "std::fmax": ("Rmax", "max"), "std::min": ("Rmin", "min"), "std::fmin": ("Rmin", "min")}
 CMP = {">": ("Rgt_dec", "Cgt"), "<": ("Rlt_dec", "Clt"), "<=": ("Rle_dec", "Cle"), ">=": ("Rge_dec", "Cge")}
 BIN = {"+": "EAdd", "-": "ESub", "*": "EMul", "/": "EDiv"}
 
@@ -321,6 +322,8 @@ def coq(e, zvars=()):
             return "(%s %s)" % (FUN1[e[1]][0], coq(e[2][0], zvars))
         if e[1] == "std::pow" and len(e[2]) == 2:
             return "(Rpower %s %s)" % (coq(e[2][0], zvars), coq(e[2][1], zvars))
+        if e[1] in FUN2 and len(e[2]) == 2:
+            return "(%s %s %s)" % (FUN2[e[1]][0], coq(e[2][0], zvars), coq(e[2][1], zvars))
     raise Unsupported("cannot translate %r to a real-valued term" % (e[:2],))
 
 
@@ -380,6 +383,8 @@ def py(e):
             return "%s(%s)" % (FUN1[e[1]][2], py(e[2][0]))
         if e[1] == "std::pow" and len(e[2]) == 2:
             return "m_pow(%s, %s)" % (py(e[2][0]), py(e[2][1]))
+        if e[1] in FUN2 and len(e[2]) == 2:
+            return "%s(%s, %s)" % (FUN2[e[1]][1], py(e[2][0]), py(e[2][1]))
     raise Unsupported("cannot print %r as Python" % (e[:2],))
 
 
